@@ -10,11 +10,13 @@ VARIABLES pool, hist, last
 Srcs == {"a", "b"}
 \* roles are given with or without their colon
 TripleU == {<<s, r, t>> : s \in Srcs, r \in {":instance", ":r", "r"}, t \in {"a", "x", NULL}}
+\* triples written into a list in place (no construction step, so roles are given with their colon)
+EditU == {<<s, r, "a">> : s \in Srcs, r \in {":instance", ":r"}} \cup {<<"a", ":r", "x">>}
 Lists == UNION {[1..n -> TripleU] : n \in 0..MaxT}
 Tops == {NULL, "a", "b", "z"}
 Tag(n) == <<Mk("align", ToString(n))>>
 NewG(tr, top, n) == MkGraph(tr, top, [i \in DOMAIN tr |-> Tag(n)])
-A0 == [op |-> "", i |-> 0, j |-> 0, top |-> NULL, tr |-> <<>>, xtop |-> NULL]
+A0 == [op |-> "", i |-> 0, j |-> 0, k |-> 0, top |-> NULL, tr |-> <<>>, xtop |-> NULL]
 Init == pool = <<>> /\ hist = <<>> /\ last = "ok"
 \* construction phase: the first two objects are any graphs of the universe
 New == /\ Len(pool) < 2
@@ -25,6 +27,7 @@ New == /\ Len(pool) < 2
        /\ last' = "ok"
 Acts == {[A0 EXCEPT !.op = o, !.i = i, !.j = j] : o \in {"or", "ior", "sub", "isub"}, i \in 1..4, j \in 1..4}
         \cup {[A0 EXCEPT !.op = "settop", !.i = i, !.top = t] : i \in 1..4, t \in Tops}
+        \cup {[A0 EXCEPT !.op = "edit", !.i = i, !.k = k, !.tr = <<t>>] : i \in 1..2, k \in 1..2, t \in EditU}
 Do(act) == /\ Len(pool) >= 2 /\ Len(hist) < MaxH + 2 /\ act.i \in DOMAIN pool /\ (act.j = 0 \/ act.j \in DOMAIN pool)
            /\ (act.op \in {"or", "sub"} => Len(pool) < 4)
            /\ LET r == Apply(pool, act) IN pool' = r.pool /\ last' = r.res
@@ -48,7 +51,7 @@ TopRefusal == [][\A i \in DOMAIN pool : (i \in DOMAIN pool' /\ pool'[i].xtop # p
 OperandsUntouched == [][\A i \in DOMAIN pool :
         LET act == hist'[Len(hist')] IN (i \in DOMAIN pool' /\ (~InPlace(act.op) \/ i # act.i)) => pool'[i] = pool[i]]_<<pool, hist, last>>
 \* set algebra
-SetAlgebra == [][hist'[Len(hist')].op \in {"new", "settop"} \/
+SetAlgebra == [][hist'[Len(hist')].op \in {"new", "settop", "edit"} \/
                  LET act == hist'[Len(hist')]
                      a == pool[act.i]
                      r == IF InPlace(act.op) THEN pool'[act.i] ELSE pool'[Len(pool')]
